@@ -35,6 +35,17 @@ example : (lookup (c!"a") (groupByKey (c!"k")
 theorem group_keys_nodup (key : Str) (rows : List Cells) : ((groupByKey key rows).map (·.1)).Nodup := by
   apply keys_nodup_fold; simp
 
+/-- The lists come in the order in which their names first occur on the sheet. -/
+theorem group_keys_order (key : Str) (rows : List Cells) :
+    (groupByKey key rows).map (·.1) = Spec.listNames key rows := by
+  have := keys_fold key rows []
+  simp only [List.map_nil] at this
+  rw [groupByKey, this, foldl_appendNew]
+  simp [Spec.listNames]
+
+example : (groupByKey c!"k" [[(c!"k", c!"b")], [(c!"k", c!"a")], [(c!"n", c!"x")], [(c!"k", c!"b")]]).map (·.1) = [c!"b", c!"a"] := by
+  decide +kernel
+
 /-- End to end: the options of list `l` are the sheet's rows of `l`, in order, each read by `choiceOf`. -/
 theorem choices_of_list (cols : List Str) (l : Str) (rows : List Cells) :
     (lookup l (choicesOf cols rows)).getD [] = (Spec.listRows listKey l rows).map (choiceOf (badHeaders cols)) := by
@@ -101,6 +112,48 @@ theorem uri_scheme (f n : Str) :
 
 example : (fromFileInst (c!"cities.csv")).map (·.src) = some (some (c!"jr://file-csv/cities.csv")) := by decide
 example : (fromFileInst (c!"g.geojson")).map (fun i => (i.name, i.src)) = some (c!"g", some (c!"jr://file/g.geojson")) := by decide
+
+/-! ## … through to the document: ids of the rendered `<instance>` elements -/
+
+open Pyxv.Xml in
+/-- The `<model>` element holding the emitted instances between any other element children that carry no
+    instance id (itext, the primary instance, binds …), written by the compact writer and read back by an XML
+    reader: the ids of its `<instance id=…>` children are the emitted instances' names, in order, pairwise
+    distinct.  `hwf` is C01's well-formedness guard (names are XML names, text and attribute characters are
+    XML characters without TAB / CR / LF in attribute values). -/
+theorem document_ids_unique (is out : List Inst) (h : emitInsts [] is = some out)
+    (attrs : List (Str × Str)) (pre post : List Node)
+    (hpre : ∀ k ∈ pre, isElem k = true) (hpost : ∀ k ∈ post, isElem k = true)
+    (npre : pre.filterMap instanceId = []) (npost : post.filterMap instanceId = [])
+    (hwf : (Node.elem c!"model" attrs (pre ++ out.map instNode ++ post)).WF = true) :
+    ∃ doc, parseDoc (renderDoc false (.elem c!"model" attrs (pre ++ out.map instNode ++ post))) = some doc ∧
+      instanceIds doc = out.map (·.name) ∧ (instanceIds doc).Nodup := by
+  refine ⟨_, render_parses_compact _ hwf rfl, ?_, ?_⟩
+  · rw [instanceIds_expected]
+    · rw [List.filterMap_append, List.filterMap_append, npre, npost, ids_instNodes]; simp
+    · intro k hk
+      simp only [List.mem_append, List.mem_map] at hk
+      rcases hk with (hk | ⟨i, _, rfl⟩) | hk
+      · exact hpre k hk
+      · exact isElem_instNode i
+      · exact hpost k hk
+  · rw [instanceIds_expected]
+    · rw [List.filterMap_append, List.filterMap_append, npre, npost, ids_instNodes]
+      simpa using instance_ids_nodup is out h
+    · intro k hk
+      simp only [List.mem_append, List.mem_map] at hk
+      rcases hk with (hk | ⟨i, _, rfl⟩) | hk
+      · exact hpre k hk
+      · exact isElem_instNode i
+      · exact hpost k hk
+
+/-- the rendered id of an instance element is the instance's name -/
+theorem rendered_id (i : Inst) : instanceId (instNode i) = some i.name := instanceId_instNode i
+
+example : instText (pulldataInst c!"pd") = c!"<instance id=\"pd\" src=\"jr://file-csv/pd.csv\"/>" := by decide +kernel
+example : instText (staticInst c!"l" [choiceOf [] [(c!"name", c!"a"), (c!"label", c!"A & b")]])
+    = c!"<instance id=\"l\"><root><item><name>a</name><label>A &amp; b</label></item></root></instance>" := by decide +kernel
+example : (Xml.Node.elem c!"model" [] ([pulldataInst c!"pd", staticInst c!"l" []].map instNode)).WF = true := by decide +kernel
 
 /-! ## search(): inline items only -/
 
